@@ -487,7 +487,7 @@ def shard(ctx: Ctx) -> None:
             idx += 1
             if ctx.mine(idx):
                 one(ctx, [list(ALPHABET[i]) for i in combo], f"all-histories-len{ln}")
-    for _ in range(120000 if ctx.thorough else 10000):
+    for _ in range(400000 if ctx.thorough else 10000):
         h = gen_history(rng)
         idx += 1
         if ctx.mine(idx):
